@@ -107,6 +107,26 @@ type caseSpec struct {
 	Top string      `json:"top,omitempty"` // a named library type used as the top-level value instead of an anonymous shape
 	V   string      `json:"v,omitempty"`   // variant of the top value
 	O   *optSpec    `json:"o,omitempty"`
+	// type GRAPH histories (C15): the top-level kinds that were encoded before, in this order, by every encoder under the
+	// same options in the same fresh process (the case then runs in a child process of its own)
+	Pre []string `json:"pre,omitempty"`
+}
+
+// graphIDs: the graph family of Recompose.tla as top-level kinds (values: the family table of c16.go; variant z = zero
+// value). They are only touched in child processes: the outcome for one of them must not depend on which others the
+// process has encoded before.
+var graphIDs = []string{"GA", "GB", "Anon4", "HA", "HB", "HC", "MA", "MB", "EO", "EP", "A.EI", "EQ", "B.EI", "Anon1", "Anon2", "Anon3"}
+
+func init() {
+	for _, id := range graphIDs {
+		v := family[id]
+		kinds[id] = kindDef{typ: reflect.TypeOf(v), isolate: true, val: func(variant string) any {
+			if variant == "z" {
+				return nil
+			}
+			return v
+		}}
+	}
 }
 
 type kindDef struct {
